@@ -214,6 +214,36 @@ func globalWrites(p *Program, g *ssa.Global, uses map[*ssa.Global][]ssa.Instruct
 	return
 }
 
+// retainedLiteral: the function literal fn outlives the call that creates it — some closure value made from it is used
+// other than by calling it on the spot (stored, returned, passed on, or captured by another literal).
+func retainedLiteral(fn *ssa.Function) bool {
+	for _, mc := range makeClosuresOf(fn) {
+		for _, r := range *mc.Referrers() {
+			if call, ok := r.(*ssa.Call); ok && call.Call.Value == ssa.Value(mc) {
+				continue
+			}
+			if _, ok := r.(*ssa.DebugRef); ok {
+				continue
+			}
+			return true
+		}
+	}
+	if len(makeClosuresOf(fn)) == 0 && fn.Parent() != nil {
+		// a literal without captured variables is a plain function value: look for uses of it
+		for _, in := range instrs(fn.Parent()) {
+			for _, op := range in.Operands(nil) {
+				if op != nil && *op == ssa.Value(fn) {
+					if call, ok := in.(*ssa.Call); ok && call.Call.Value == ssa.Value(fn) {
+						continue
+					}
+					return true
+				}
+			}
+		}
+	}
+	return false
+}
+
 func runGlob1(c *Ctx) {
 	p := c.P
 	// positive fixture: the rule must see the writes package initialisation itself performs
@@ -231,6 +261,44 @@ func runGlob1(c *Ctx) {
 		return
 	}
 	c.Trivial("fixture", token.NoPos, "write detector sees %d initialising stores in package init functions", fixture)
+	// state captured by function literals that package initialisation creates and keeps (the collation functions in
+	// CollateFuncs): a variable such a literal captured is as global as a package variable
+	for _, fn := range p.ModFuncs() {
+		top := fn
+		for top.Parent() != nil {
+			top = top.Parent()
+		}
+		if fn.Parent() == nil || !inInit(top) || !retainedLiteral(fn) {
+			continue
+		}
+		for _, in := range instrs(fn) {
+			st, ok := in.(*ssa.Store)
+			if !ok {
+				continue
+			}
+			root := st.Addr
+			for i := 0; i < 8; i++ {
+				switch x := root.(type) {
+				case *ssa.FieldAddr:
+					root = x.X
+					continue
+				case *ssa.IndexAddr:
+					root = x.X
+					continue
+				case *ssa.UnOp:
+					root = x.X
+					continue
+				case *ssa.Slice:
+					root = x.X
+					continue
+				}
+				break
+			}
+			if fv, isFV := root.(*ssa.FreeVar); isFV {
+				c.Fail("captured state: "+p.FnKey(fn)+" "+fv.Name(), st.Pos(), "a function literal that package initialisation creates and keeps writes the variable `%s` it captured: the variable is shared by every handle in the process, two goroutines race on it and one operation's result can depend on another's", fv.Name())
+			}
+		}
+	}
 	for _, g := range moduleGlobals(p) {
 		key := strings.ReplaceAll(g.String(), ModPath+"/", "")
 		key = strings.ReplaceAll(key, ModPath, "sqlittle")
